@@ -26,6 +26,11 @@ THEOREMS = {
         "MG.Eng.collect_post",
     ],
     "MG.Proofs.Lemmas.Transpose": ["MG.Adj.reverse_eq_transpose_forward"],
+    "MG.Proofs.Lemmas.Analytic": [
+        "MG.Analytic.backward_is_total_derivative",
+        "MG.Analytic.tangent_is_derivative",
+        "MG.Analytic.tanOf_isTan",
+    ],
 }
 
 GEN = dict(inplace=False, p_fail=0.0, p_view=0.25, p_const=0.2, n_stmts=9)
@@ -110,10 +115,13 @@ MANIFEST = {
             "back-propagation loop leaves are THE unique solution of the adjoint equations of the recorded graph (seed at L plus, "
             "per consumer edge, that edge's VJP of the consumer's gradient) — all graph shapes, depths, fan-out, repeated operands, "
             "diamonds, broadcasting; backward_order_independent: any consumers-first order and any permutation of recorded edges "
-            "give the same result; collect_consumers_first: the DFS with appendleft yields such an order. The model is executable "
+            "give the same result; collect_consumers_first: the DFS with appendleft yields such an order; backward_is_total_derivative: "
+            "for a differentiable straight-line program that unique solution is the total derivative. The model is executable "
             "and is run against MyGrad on every check (data, grads, flags, bases, memory sharing after every statement, exact "
             "integers); an independent exact forward-mode (Fraction dual numbers through plain NumPy) oracle checks every gradient.",
     "note": "Trusted: Lean kernel, axioms {propext, Classical.choice, Quot.sound}; the correspondence harness; acyclicity of the "
             "recorded graph is a hypothesis of the theorems (the model reports a cycle as RecursionError, as CPython does). "
-            "reverse_eq_transpose_forward proves, for any graph and any pairing under which each edge's vjp is the transpose of its jvp (C02's per-op statements), that the adjoint solution is the transpose of forward tangent propagation; that the tangent solution is the Fréchet derivative of the composite (chain rule in Mathlib's HasFDerivAt form) is exercised end-to-end by the exact dual-number oracle, not proved compositionally (named gap C01_analytic).",
+            "reverse_eq_transpose_forward proves, for any graph and any pairing under which each edge's vjp is the transpose of its jvp (C02's per-op statements), that the adjoint solution is the transpose of forward tangent propagation; "
+            "backward_is_total_derivative (Mathlib, HasFDerivAt/HasDerivAt) closes the analytic link for straight-line programs over ℝ with scalar nodes (one node per array element; repeated operands, fan-out and re-convergent paths): if every primitive is Fréchet-differentiable where it is applied and the edge maps are multiplication by its partial derivatives, the solution of the adjoint equations paired with the input velocities IS the derivative of the seeded terminal sum along any differentiable curve of inputs. "
+            "What joins the two levels — that the Int-valued VJP arrays of the engine model's ops are those partial derivatives — is C02's subject and is checked there op by op, not inside this theorem.",
 }
